@@ -1,10 +1,8 @@
 CONSTANTS
   defaultInitValue = "connecting"
-  Impl = "fixed"
+  Impl = "loadstore"
   Start = "connecting"
   WithP = TRUE
 SPECIFICATION Spec
-INVARIANTS EmitInitInv Monotone EndsClosed
-PROPERTIES NeverReopens
-ACTION_CONSTRAINT EmitEdge
+INVARIANTS Monotone
 CHECK_DEADLOCK FALSE
